@@ -339,7 +339,7 @@ func judgeAPI(r *core.Run, h apiHist, o apiOutcome) {
 	}
 	for _, f := range o.fails {
 		r.Eval(1)
-		r.Violation("processlist:"+core.StripVolatile(f), wit(map[string]any{"failure": f}))
+		r.Violation(g4lib.Sig("processlist:"+core.StripVolatile(f)), wit(map[string]any{"failure": f}))
 	}
 	// conservation at the end of the history: everything was ended and removed
 	r.Eval(3)
@@ -480,7 +480,7 @@ func main() {
 	r.Assume("bounded restatement of 'KILL takes effect': the killed statement (SLEEP(1000) or an astronomically long cross join) must return an error within a 120 s watchdog; a fired watchdog is inconclusive unless the scenario is stuck again twice when re-run alone")
 	r.Extra("race_build", g4lib.RaceEnabled())
 
-	eng := core.NewEng("d") // also initialises the process-global status variables
+	eng := core.NewEng("c37db") // (unique name: foreign servers sharing the port reject the connect); also initialises the process-global status variables
 	srv, err := eng.StartServer()
 	if err != nil {
 		r.Floor(false, "server did not start: "+err.Error())
@@ -498,7 +498,7 @@ func main() {
 				defer func() {
 					if rec := recover(); rec != nil {
 						p := core.CapturePanic(rec)
-						r.Violation(p.Sig(), map[string]any{"history": h, "panic": p.Value, "stack": core.Clip(p.Stack, 3000)})
+						r.Violation(g4lib.Sig(p.Sig()), map[string]any{"history": h, "panic": p.Value, "stack": core.Clip(p.Stack, 3000)})
 					}
 				}()
 				o := runAPI(h)
